@@ -7,7 +7,10 @@
 // input (stdin), one command per line:
 //   COMBOS t:k:c t:k:c ...          k: 1 static, 2 dynamic, 3 guided ; c: chunk (0 = default)
 //   CASE <id> <region> <N> <k> <d> <L> <dim> <seed> <intdata>
-//        region: iso isol mds mdsl diff klle kltsa hlle tri cli
+//        region: iso isol mds mdsl diff klle kltsa hlle tri cli tsne
+//        (tsne: no OpenMP region on the pinned tree — a sentinel: tsne::TSNE::run on N points of dimension dim,
+//         perplexity k, theta = 0.5 if d == 2 else 0 (exact), stopped by the harness' logger at the first progress
+//         line with iteration >= L; result = the map Y after those iterations + the logged error)
 // output: "C <id>" before each case (flushed), then per combination
 //   "R <id> <t> <k> <c> <hash> <entries> <maxabsdiff %a> <maxabsref %a> <nonfinite> <hash of the iteration->thread map>"
 //   and up to three lines "X <id> <t> <k> <c> <index> <ref %a> <val %a>" for differing entries,
@@ -34,6 +37,8 @@
 #include <tapkee/routines/locally_linear.hpp>
 #include <tapkee/routines/landmarks.hpp>
 #include <cli/util.hpp>
+#include <tapkee/external/barnes_hut_sne/tsne.hpp>
+#include <tapkee/utils/logging.hpp>
 
 using namespace tapkee;
 using namespace tapkee::tapkee_internal;
@@ -97,6 +102,32 @@ static uint64_t fnv(const double* p, size_t n)
 }
 
 typedef std::vector<int> Indices;
+
+// ends TSNE::run (its iteration count is a local constant) at the first progress line with iteration >= stop_at
+struct stop_request
+{
+    long iteration;
+};
+struct StopLogger : public LoggerImplementation
+{
+    long stop_at = -1;
+    double last_error = 0;
+    virtual void message_info(const std::string& msg)
+    {
+        long it = 0;
+        char buf[64];
+        if (msg.rfind("Iteration ", 0) == 0 && sscanf(msg.c_str(), "Iteration %ld: error is %63s", &it, buf) == 2)
+        {
+            last_error = strtod(buf, nullptr);
+            if (stop_at >= 0 && it >= stop_at) throw stop_request{it};
+        }
+    }
+    virtual void message_warning(const std::string&) {}
+    virtual void message_debug(const std::string&) {}
+    virtual void message_error(const std::string&) {}
+    virtual void message_benchmark(const std::string&) {}
+};
+static StopLogger* g_logger = nullptr;
 
 static Neighbors knn(const Data& D, int k)
 {
@@ -182,6 +213,27 @@ static std::vector<double> run_region(const std::string& region, const Data& D, 
         // rows of landmarks are copied before the region; every other row is written by the region
         return flat(e);
     }
+    if (region == "tsne")
+    {
+        DenseMatrix X(D.dim, D.N);
+        for (int i = 0; i < D.N; i++)
+            for (int c = 0; c < D.dim; c++) X(c, i) = D.at(i, c);
+        std::vector<double> Y((size_t)D.N * 2 + 1, 0.0);
+        g_logger->stop_at = L;
+        g_logger->last_error = 0;
+        srand((unsigned)seed);
+        tsne::TSNE t;
+        try
+        {
+            t.run(X, D.N, D.dim, Y.data(), 2, (double)k, d == 2 ? 0.5 : 0.0);
+        }
+        catch (const stop_request&)
+        {
+        }
+        g_logger->stop_at = -1;
+        Y[(size_t)D.N * 2] = g_logger->last_error;
+        return Y;
+    }
     if (region == "cli")
     {
         const Data* Dp = &D;
@@ -201,6 +253,13 @@ int main()
     combos.push_back({1, 1, 0});
     std::string line;
     omp_set_dynamic(0);
+    g_logger = new StopLogger;
+    Logging::instance().set_logger_impl(g_logger);      // owned by the singleton from here on
+    Logging::instance().enable_info();
+    Logging::instance().disable_warning();
+    Logging::instance().disable_error();
+    Logging::instance().disable_benchmark();
+    Logging::instance().disable_debug();
     while (std::getline(std::cin, line))
     {
         std::istringstream is(line);
